@@ -38,7 +38,7 @@ def check_composite(xsrc: str, ranges, variant: str = "shipped"):
     call = tree.body
     if not isinstance(call, ast.Call):
         return {"kind": "not-a-call"}
-    got = [(a.col_offset, a.end_col_offset) for a in call.args]
+    got = [(a.lineno, a.col_offset, a.end_col_offset) for a in call.args]
     if got != [tuple(x) for x in ranges]:
         return {"kind": "word-boundaries", "got": got, "want": ranges, "unparsed": ast.unparse(tree)[:200]}
     return {"ok": True}
@@ -84,7 +84,12 @@ def build_inputs(tier):
         text = o
         ranges = []
         for i in range(n):
-            text += r.choice(["", " ", "  "]) if i == 0 else r.choice([" ", "\t", "   "])
+            if i and r.random() < 0.25:
+                # continue the command on the next line, often starting exactly in the column where the previous word ended
+                col = len(text) - (text.rfind("\n") + 1)
+                text += "\n" + " " * (col if r.random() < 0.6 else r.randint(0, 12))
+            else:
+                text += r.choice(["", " ", "  "]) if i == 0 else r.choice([" ", "\t", "   "])
             start = len(text)
             for j in range(r.randint(1, 4)):
                 k = r.random()
@@ -100,7 +105,8 @@ def build_inputs(tier):
                 if text[start:] and (text[-1].isalnum() or text[-1] == "_") and (w[0].isalnum() or w[0] == "_"):
                     w = "/" + w
                 text += w
-            ranges.append((start, len(text)))
+            nl = text.rfind("\n", 0, start) + 1
+            ranges.append((text.count("\n", 0, start) + 1, start - nl, len(text) - nl))
         text += r.choice(["", " "]) + c
         cases.append(("composite", text, ranges, ["composite"]))
     return cases
